@@ -639,6 +639,105 @@ mod req {
     }
 }
 
+// ---------------------------------------------------------------- shim conformance: the ASSUMED std contracts, tested (thorough tier)
+// Executable twins of the spec functions in /verif/shims are compared with the real std functions.  A mismatch means an
+// assumption of the proofs is wrong; it is reported as case "shim_<name>".
+mod shimtest {
+    use super::*;
+    use std::io::{BufRead, Cursor, Read};
+
+    fn dec(mut n: u128) -> String { if n == 0 { return "0".into(); } let mut v = vec![]; while n > 0 { v.push((b'0' + (n % 10) as u8) as char); n /= 10; } v.iter().rev().collect() }
+    fn has_sub(s: &[char], p: &[char]) -> bool { (0..=s.len().saturating_sub(p.len())).any(|k| k + p.len() <= s.len() && &s[k..k + p.len()] == p) }
+    fn without_char(s: &str, c: char) -> String { s.chars().filter(|x| *x != c).collect() }
+    fn parses_unsigned(s: &str, max: u128) -> Option<u128> {
+        let d = s.strip_prefix('+').unwrap_or(s);
+        if d.is_empty() || !d.chars().all(|c| c.is_ascii_digit()) { return None; }
+        let mut v: u128 = 0;
+        for c in d.chars() { v = v.checked_mul(10)?.checked_add(c as u128 - '0' as u128)?; if v > max { return None; } }
+        Some(v)
+    }
+    fn parses_signed(s: &str, min: i128, max: i128) -> Option<i128> {
+        let (neg, d) = if let Some(r) = s.strip_prefix('-') { (true, r) } else { (false, s.strip_prefix('+').unwrap_or(s)) };
+        if d.is_empty() || !d.chars().all(|c| c.is_ascii_digit()) { return None; }
+        let mut v: i128 = 0;
+        for c in d.chars() { v = v.checked_mul(10)?.checked_add(c as i128 - '0' as i128)?; if v > (1i128 << 100) { return None; } }
+        let v = if neg { -v } else { v };
+        if v < min || v > max { None } else { Some(v) }
+    }
+    fn line_len(s: &[u8]) -> usize { match s.iter().position(|b| *b == b'\n') { Some(i) => i + 1, None => s.len() } }
+
+    pub fn strings(rng: &mut Rng) -> Vec<String> {
+        let mut v: Vec<String> = ["", " ", "a", "a-b", "-", "--", "a--b", " 12 ", "+5", "-5", "18446744073709551615", "18446744073709551616", "007", "1 2", "\t3\n", "x: y: z", ": ", "a,b,,c", ",", "é", "a\u{3000}", "\r\nA\r\n", "..", "a..b", "/a/../b"].iter().map(|s| s.to_string()).collect();
+        let alphabet: Vec<char> = "ab-, :+019/.=\r\n\té ".chars().collect();
+        for _ in 0..400 { let n = rng.below(9) as usize; v.push((0..n).map(|_| alphabet[rng.below(alphabet.len() as u64) as usize]).collect()); }
+        v
+    }
+    pub fn search(seed: u64) -> bool {
+        let mut h = Hits::new();
+        let mut rng = Rng(seed | 1);
+        let ss = strings(&mut rng);
+        for s in &ss {
+            let cs: Vec<char> = s.chars().collect();
+            for sep in ["-", ",", "=", ": ", " ", "/"] {
+                let parts: Vec<&str> = s.split(sep).collect();
+                let sc: Vec<char> = sep.chars().collect();
+                if parts.is_empty() || parts.join(sep) != *s || parts.iter().any(|p| has_sub(&p.chars().collect::<Vec<_>>(), &sc)) { h.hit("shims", "shim_split", "str::split", s, sep); }
+                match s.split_once(sep) {
+                    None => if has_sub(&cs, &sc) { h.hit("shims", "shim_split_once", "str::split_once", s, sep); },
+                    Some((a, b)) => if format!("{}{}{}", a, sep, b) != *s || has_sub(&a.chars().collect::<Vec<_>>(), &sc) || (parts.len() > 1 && (a != parts[0] || b != parts[1..].join(sep))) { h.hit("shims", "shim_split_once", "str::split_once", s, sep); },
+                }
+                if s.starts_with(sep) != (cs.len() >= sc.len() && cs[..sc.len()] == sc[..]) { h.hit("shims", "shim_starts_with", "str::starts_with", s, sep); }
+                if s.ends_with(sep) != (cs.len() >= sc.len() && cs[cs.len() - sc.len()..] == sc[..]) { h.hit("shims", "shim_ends_with", "str::ends_with", s, sep); }
+                if s.contains(sep) != has_sub(&cs, &sc) { h.hit("shims", "shim_contains", "str::contains", s, sep); }
+            }
+            let t = s.trim();
+            let ok_trim = s.find(t).map(|a| { let a_chars = s[..a].chars().all(|c| c.is_whitespace()); let b = &s[a + t.len()..]; a_chars && b.chars().all(|c| c.is_whitespace()) }).unwrap_or(false)
+                && (t.is_empty() || (!t.chars().next().unwrap().is_whitespace() && !t.chars().last().unwrap().is_whitespace()));
+            if !ok_trim { h.hit("shims", "shim_trim", "str::trim", s, t); }
+            if s.parse::<u64>().ok().map(|x| x as u128) != parses_unsigned(s, u64::MAX as u128) { h.hit("shims", "shim_parse_u64", "str::parse::<u64>", s, ""); }
+            if s.parse::<usize>().ok().map(|x| x as u128) != parses_unsigned(s, usize::MAX as u128) { h.hit("shims", "shim_parse_usize", "str::parse::<usize>", s, ""); }
+            if s.parse::<i64>().ok().map(|x| x as i128) != parses_signed(s, i64::MIN as i128, i64::MAX as i128) { h.hit("shims", "shim_parse_i64", "str::parse::<i64>", s, ""); }
+            if s.parse::<i16>().ok().map(|x| x as i128) != parses_signed(s, i16::MIN as i128, i16::MAX as i128) { h.hit("shims", "shim_parse_i16", "str::parse::<i16>", s, ""); }
+            if s.parse::<bool>().ok() != (if s == "true" { Some(true) } else if s == "false" { Some(false) } else { None }) { h.hit("shims", "shim_parse_bool", "str::parse::<bool>", s, ""); }
+            if s.replace("\r", "") != without_char(s, '\r') || s.replace("\n", "") != without_char(s, '\n') || s.replace("/", "/") != *s { h.hit("shims", "shim_replace", "str::replace", s, ""); }
+            if s.len() < cs.len() || (s.len() == cs.len()) != s.is_ascii() { h.hit("shims", "shim_utf8_len", "str::len", s, ""); }
+            if s.as_bytes() != s.clone().into_bytes().as_slice() || String::from_utf8(s.as_bytes().to_vec()).ok().as_deref() != Some(s.as_str()) { h.hit("shims", "shim_bytes", "as_bytes/from_utf8", s, ""); }
+            for i in 0..cs.len() + 2 { if s.chars().nth(i) != cs.get(i).copied() { h.hit("shims", "shim_chars_nth", "chars().nth", s, ""); } }
+            if s.chars().count() != cs.len() || s.chars().last() != cs.last().copied() || s.matches("=").count() != cs.iter().filter(|c| **c == '=').count() { h.hit("shims", "shim_chars", "chars()", s, ""); }
+            if s.chars().rev().collect::<String>() != cs.iter().rev().collect::<String>() { h.hit("shims", "shim_rev", "chars().rev()", s, ""); }
+            // Cursor::read_until / read_to_end
+            let b = s.as_bytes();
+            let mut c = Cursor::new(b);
+            let mut buf = vec![7u8];
+            let n = c.read_until(b'\n', &mut buf).unwrap();
+            if n != line_len(b) || buf[1..] != b[..n] { h.hit("shims", "shim_read_until", "Cursor::read_until", s, ""); }
+            let mut rest = vec![9u8];
+            let m = c.read_to_end(&mut rest).unwrap();
+            if m != b.len() - n || rest[1..] != b[n..] { h.hit("shims", "shim_read_to_end", "Cursor::read_to_end", s, ""); }
+        }
+        for x in [0u64, 1, 9, 10, 99, 100, 12345, u64::MAX, u64::MAX - 1] { if x.to_string() != dec(x as u128) || (x as usize).to_string() != dec(x as u128) { h.hit("shims", "shim_to_string", "u64::to_string", &x.to_string(), ""); } }
+        for x in [0i64, -1, 1, i64::MIN, i64::MAX, -400] { let want = if x < 0 { format!("-{}", dec((-(x as i128)) as u128)) } else { dec(x as u128) }; if x.to_string() != want { h.hit("shims", "shim_to_string", "i64::to_string", &x.to_string(), ""); } }
+        if true.to_string() != "true" || false.to_string() != "false" || 'x'.to_string() != "x" { h.hit("shims", "shim_to_string", "bool/char::to_string", "", ""); }
+        if ["a", "b", "c"].join("-") != "a-b-c" || vec!["x".to_string()].join(",") != "x" || Vec::<String>::new().join(",") != "" || [vec![1u8], vec![2, 3]].concat() != vec![1, 2, 3] { h.hit("shims", "shim_join", "join/concat", "", ""); }
+        if ('A'..='Z').into_iter().collect::<Vec<char>>().len() != 26 || ('0'..='9').into_iter().collect::<Vec<char>>()[9] != '9' { h.hit("shims", "shim_char_range", "RangeInclusive<char>", "", ""); }
+        // file-ext read_file_partially == file_slice
+        let dir = std::path::PathBuf::from(env!("CARGO_MANIFEST_DIR")).join("shimtest");
+        let _ = std::fs::create_dir_all(&dir);
+        let f = dir.join("f.bin");
+        let content: Vec<u8> = (0..300u32).map(|i| (i % 251) as u8).collect();
+        std::fs::write(&f, &content).unwrap();
+        for (a, b) in [(0u64, 0u64), (0, 299), (0, 300), (5, 9), (299, 299), (299, 1000), (300, 300), (301, 400), (10, 10)] {
+            let got = file_ext::FileExt::read_file_partially(f.to_str().unwrap(), a, b).unwrap();
+            let want: Vec<u8> = if a as usize >= content.len() { vec![] } else { content[a as usize..std::cmp::min(b as usize + 1, content.len())].to_vec() };
+            if got != want { h.hit("shims", "shim_read_file_partially", "FileExt::read_file_partially", &format!("{}-{}", a, b), &format!("{} bytes, expected {}", got.len(), want.len())); }
+        }
+        if file_ext::FileExt::get_path_separator() != "/" { h.hit("shims", "shim_separator", "FileExt::get_path_separator", "", ""); }
+        let cwd = std::env::current_dir().unwrap();
+        if file_ext::FileExt::get_static_filepath("/x").ok() != Some(format!("{}/x", cwd.to_str().unwrap())) { h.hit("shims", "shim_static_filepath", "FileExt::get_static_filepath", "", ""); }
+        h.n > 0
+    }
+}
+
 pub fn dispatch(args: &[String]) -> i32 {
     panic::set_hook(Box::new(|_| {}));
     if args.len() < 2 { eprintln!("usage: falsify search <routine> <seed> | replay <routine> <case> <input>"); return 2; }
@@ -653,6 +752,7 @@ pub fn dispatch(args: &[String]) -> i32 {
         ("replay", "e2e") => e2e::replay(&args[2], &args[3]),
         ("search", "request") => req::search(args.get(2).and_then(|s| s.parse().ok()).unwrap_or(1)),
         ("replay", "request") => req::replay(&args[2], &args[3]),
+        ("search", "shims") => shimtest::search(args.get(2).and_then(|s| s.parse().ok()).unwrap_or(1)),
         ("search", "range") => rng::search(args.get(2).and_then(|s| s.parse().ok()).unwrap_or(1)),
         ("replay", "range") => rng::replay(&args[2], &args[3]),
         _ => { eprintln!("unknown routine"); return 2; }
